@@ -462,36 +462,45 @@ func (child *partitionConsumer) responseFeeder() {
 feederLoop:
 	for response := range child.feeder {
 		msgs, child.responseResult = child.parseResponse(response)
+		verifEvtKV("cf.parsed", child.topic, int64(child.partition), int64(len(msgs)))
 
 		if child.responseResult == nil {
 			atomic.StoreInt32(&child.retries, 0)
 		}
 
 		for i, msg := range msgs {
+			verifEvtKV("cf.icept", child.topic, int64(child.partition), msg.Offset)
 			child.interceptors(msg)
 		messageSelect:
 			select {
 			case <-child.dying:
+				verifEvtKV("cf.ack", child.topic, int64(child.partition), 1)
 				child.broker.acks.Done()
 				continue feederLoop
 			case child.messages <- msg:
+				verifEvtKV("cf.deliver", child.topic, int64(child.partition), msg.Offset)
 				firstAttempt = true
 			case <-expiryTicker.C:
 				if !firstAttempt {
 					child.responseResult = errTimedOut
+					verifEvtKV("cf.ack", child.topic, int64(child.partition), 2)
 					child.broker.acks.Done()
 				remainingLoop:
 					for j, msg := range msgs[i:] {
 						if j > 0 {
 							// msgs[i] has already been through the interceptors above
+							verifEvtKV("cf.icept", child.topic, int64(child.partition), msg.Offset)
 							child.interceptors(msg)
 						}
 						select {
 						case child.messages <- msg:
+							verifEvtKV("cf.deliver", child.topic, int64(child.partition), msg.Offset)
 						case <-child.dying:
+							verifEvtKV("cf.abandon", child.topic, int64(child.partition), msg.Offset)
 							break remainingLoop
 						}
 					}
+					verifEvtKV("cf.resubscribe", child.topic, int64(child.partition), 0)
 					child.broker.input <- child
 					continue feederLoop
 				} else {
@@ -503,8 +512,10 @@ feederLoop:
 			}
 		}
 
+		verifEvtKV("cf.ack", child.topic, int64(child.partition), 0)
 		child.broker.acks.Done()
 	}
+	verifEvtKV("cf.closed", child.topic, int64(child.partition), 0)
 
 	expiryTicker.Stop()
 	close(child.messages)
